@@ -226,7 +226,10 @@ Verdict judge_c11(const Plan &plan, const sim::Shm *shm, const ChildExit &, cons
     bool rot = plan.cfg["mode"].toString().endsWith("rot") || plan.cfg["main_rot"].toBool();
     int limitN = rot ? plan.cfg["max_count"].toInt() : 0;
     check_file("app", limitN, [](const Call &) { return true; });
-    if (multi) {
+    v.probes["first_sink_device_full"] = plan.cfg["audit_enospc"].toBool() ? 1 : 0;
+    if (multi && !plan.cfg["audit_enospc"].toBool()) {
+        // (when every write to audit.log fails, nothing is promised about that file; the other
+        // sink's file is judged all the same)
         int kind = plan.cfg["audit_kind"].toInt(), arg = plan.cfg["audit_arg"].toInt();
         check_file("audit", 0, [&](const Call &c) {
             if (kind == 0)
